@@ -11,19 +11,40 @@ C26 driver.  One history per `reset`:
         the witness order found by the (untrusted) search of the harness,
         VALIDATED here by `C26.isLinearization` on `C26.seqStep` / a fresh store
   nolin <why>                               → no-witness
+  tr <kind> <fields…>                       → ok        one entry of the protocol trace recorded by the hook
+        (hooks/C26-daemon-trace.patch) in a traced run; kinds and fields: see `parseEntry`
+  trend <n>                                 → trace-ok <n> | trace-reject <index> <why>
+        the recorded trace VALIDATED by the acceptor `C26.acceptAll` (Trace.lean) against the
+        LTS of Model.lean with the store of C24 as sequential specification (Version calls are
+        operations without effect): every entry is an enabled step of the model and every
+        reply is the one the specification gives at that point of the commit order
 
 `why` after `reject` is a diagnostic computed outside the proved checker.
 -/
 import ElvModel.Go.Driver
 import ElvModel.C26.Linearizable
 import ElvModel.C26.Store
+import ElvModel.C26.Trace
 namespace C26
 open Go
+
+/-- operations / replies of a traced run: `none` is the Version call (no effect on the store) -/
+abbrev TOp := Option Op
+abbrev TOut := Option Out
+
+def specV (s : C24.Store) : TOp → C24.Store × TOut
+  | none => (s, none)
+  | some o => let (s', r) := seqStep s o; (s', some r)
 
 structure DState where
   /-- events, newest first -/
   rev : List (Event Op Out)
   bad : Bool
+  /-- trace entries, newest first -/
+  tr : List (Entry TOp TOut) := []
+  trBad : Bool := false
+  callOps : List (Nat × TOp) := []
+  reqOps : List ((Nat × Nat) × TOp) := []
 
 def parseHexList (s : String) : Option (List Bytes) :=
   if s = "-" then some [] else (s.splitOn ",").mapM hexDecode
@@ -122,8 +143,73 @@ def whyRejected (h : History Op Out) (order : List Nat) : String :=
       else if !realtimeB h 0 order then "real-time-order-violated"
       else "accepted"
 
+def parseTOp : List String → Option TOp
+  | ["version"] => some none
+  | f => (parseOp f).map some
+
+def parseTOut (op : TOp) (f : List String) : Option TOut :=
+  match op, f with
+  | none, ["version"] => some none
+  | some o, f => (parseOut o f).map some
+  | _, _ => none
+
+def nat2 (a b : String) : Option (Nat × Nat) := do
+  let a ← a.toNat?
+  let b ← b.toNat?
+  pure (a, b)
+
+/-- one `tr` line → entry (and the tables needed to parse later replies) -/
+def parseEntry (s : DState) : List String → Option (DState × Entry TOp TOut)
+  | ["new", o] => o.toNat?.map fun o => (s, .newClient o)
+  | "invoke" :: id :: o :: op => do
+    let (id, o) ← nat2 id o
+    let op ← parseTOp op
+    pure ({ s with callOps := (id, op) :: s.callOps }, .invoke id o op)
+  | ["dial", id, c] => (nat2 id c).map fun (id, c) => (s, .dial id c)
+  | ["send", id, c, seq] => do
+    let (id, c) ← nat2 id c
+    let seq ← seq.toNat?
+    pure (s, .send id c seq)
+  | ["sendsd", id] => id.toNat?.map fun id => (s, .sendShutdown id)
+  | ["giveup", id] => id.toNat?.map fun id => (s, .giveUp id)
+  | "read" :: c :: seq :: op => do
+    let (c, seq) ← nat2 c seq
+    let op ← parseTOp op
+    pure ({ s with reqOps := ((c, seq), op) :: s.reqOps }, .read c seq op)
+  | "commit" :: c :: seq :: out => do
+    let (c, seq) ← nat2 c seq
+    let op ← (s.reqOps.find? (fun e => e.1 == (c, seq))).map (·.2)
+    let out ← parseTOut op out
+    pure (s, .commit c seq out)
+  | ["lock", c, seq] => (nat2 c seq).map fun (c, q) => (s, .lock c q)
+  | ["whdr", c, seq] => (nat2 c seq).map fun (c, q) => (s, .writeHdr c q)
+  | ["wbody", c, seq] => (nat2 c seq).map fun (c, q) => (s, .writeBody c q)
+  | ["recv", c, seq] => (nat2 c seq).map fun (c, q) => (s, .recv c q)
+  | "ret" :: id :: out => do
+    let id ← id.toNat?
+    let op ← (s.callOps.find? (fun e => e.1 == id)).map (·.2)
+    let out ← parseTOut op out
+    pure (s, .ret id out)
+  | ["reterr", id] => id.toNat?.map fun id => (s, .retErr id)
+  | ["sclose", c] => c.toNat?.map fun c => (s, .serverClose c)
+  | ["ieof", c] => c.toNat?.map fun c => (s, .inputEOF c)
+  | ["ierr", c] => c.toNat?.map fun c => (s, .inputErr c)
+  | _ => none
+
+def trendLine (s : DState) (n : String) : String :=
+  if s.trBad then "trace-reject - trace-has-bad-lines"
+  else
+    match acceptAll specV C24.Store.fresh s.tr.reverse with
+    | .ok _ => "trace-ok " ++ n
+    | .error (i, why) => s!"trace-reject {i} {why}"
+
 def stepLine (s : DState) : List String → DState × String
-  | ["reset", _] => (⟨[], false⟩, "ok")
+  | ["reset", _] => (⟨[], false, [], false, [], []⟩, "ok")
+  | "tr" :: f =>
+    match parseEntry s f with
+    | some (s', e) => ({ s' with tr := e :: s'.tr }, "ok")
+    | none => ({ s with trBad := true }, "bad-op")
+  | ["trend", n] => (s, trendLine s n)
   | "inv" :: id :: _client :: op =>
     match id.toNat?, parseOp op with
     | some id, some op => ({ s with rev := .inv id op :: s.rev }, "ok")
@@ -150,5 +236,5 @@ def stepLine (s : DState) : List String → DState × String
   | ["nolin", _] => (s, "no-witness")
   | _ => ({ s with bad := true }, "bad-op")
 
-def driver : Driver := { σ := DState, init := ⟨[], false⟩, step := stepLine }
+def driver : Driver := { σ := DState, init := ⟨[], false, [], false, [], []⟩, step := stepLine }
 end C26
